@@ -123,6 +123,13 @@ class Resolver:
             return self._env_cache[fi.qualname]
         env: Dict[str, tuple] = {}
         self._env_cache[fi.qualname] = env
+        try:
+            return self._build_env(fi, env)
+        except BaseException:
+            self._env_cache.pop(fi.qualname, None)     # never leave a half-built environment behind
+            raise
+
+    def _build_env(self, fi: FuncInfo, env: Dict[str, tuple]) -> Dict[str, tuple]:
         node = fi.node
         a = node.args
         params = a.posonlyargs + a.args + a.kwonlyargs
@@ -191,6 +198,10 @@ class Resolver:
             elif old == UNK or t != UNK:
                 env[tg.id] = t
         elif isinstance(tg, (ast.Tuple, ast.List)):
+            t = self.strip_opt(t)
+            if t[0] == "inst" and t[1] in self.m.classes and any(b.endswith("NamedTuple") for b in self.m.classes[t[1]].bases):
+                c = self.m.classes[t[1]]
+                t = ("tuple", [self.anno(c.module, a.annotation) for a in c.annos.values()])
             for i, e in enumerate(tg.elts):
                 et = UNK
                 if t[0] == "tuple" and i < len(t[1]):
